@@ -54,12 +54,21 @@ func c05R6(c *Ctx, r *Report) {
 						from, ok1 := t.X.Type().Underlying().(*types.Basic)
 						to, ok2 := t.Type().Underlying().(*types.Basic)
 						if ok1 && ok2 && underArith && sizes.Sizeof(to) < sizes.Sizeof(from) && dependsOnLen(t.X, 0) {
-							narrowedInside = append(narrowedInside, fmt.Sprintf("%s(...) at %s", to.Name(), c.pos(t.Pos())))
+							narrowedInside = append(narrowedInside, fmt.Sprintf("narrowed to %s at %s before the arithmetic on it (lengths of 256 and more lose their high bits first; compare uint8(len(x)/2))", to.Name(), c.pos(t.Pos())))
 						}
 						walk(t.X, underArith, depth+1)
 					case *ssa.Call:
 						if calleeNameSSA(t.Common()) == "builtin.len" {
 							hasLen = true
+							// the measured value is the decoded blob itself, not a buffer sized by an upper bound
+							for o := range shallowOrigins(t.Common().Args[0]) {
+								if mk, ok := o.(*ssa.MakeSlice); ok && anyIn(sliceOf(mk.Len), func(v ssa.Value) bool {
+									cl, ok := v.(*ssa.Call)
+									return ok && strings.HasSuffix(calleeNameSSA(&cl.Call), ".DecodedLen")
+								}) {
+									narrowedInside = append(narrowedInside, fmt.Sprintf("len of a buffer sized by DecodedLen at %s (an upper bound: base64 padding is counted as data)", c.pos(mk.Pos())))
+								}
+							}
 						}
 					}
 				}
@@ -69,7 +78,7 @@ func c05R6(c *Ctx, r *Report) {
 				}
 				fld := fieldNameOf(fa)
 				construct := name + "." + fld
-				r.check(len(narrowedInside) == 0, "C05.R6.derived-lengths", construct, c.pos(st.Pos()), "narrowed last", "%s is computed from a length that is narrowed to %s before the arithmetic on it: lengths of 256 and more lose their high bits first (compare uint8(len(x)/2)); the record then packs into RDATA whose length octet disagrees with its blob", construct, strings.Join(narrowedInside, ", "))
+				r.check(len(narrowedInside) == 0, "C05.R6.derived-lengths", construct, c.pos(st.Pos()), "narrowed last", "%s is not the length of its blob: %s; the record then packs into RDATA whose length field disagrees with the blob", construct, strings.Join(narrowedInside, ", "))
 			})
 		}
 	}
@@ -192,4 +201,89 @@ func c05R2b(c *Ctx, r *Report) {
 		r.check(ok, "C05.R2.lexer-type-state", fmt.Sprintf("zlexer.Next:zRrtpe#%d", i+1), c.pos(st.Pos()), "rrtype = true", "a token is classified as a record type here without zl.rrtype being set: the tokens of its RDATA are still looked up as type and class mnemonics (a generic \\# record whose hex is 'aaaa', or a bitmap written with TYPEnnn, is then mis-lexed and the printed text is rejected)")
 	}
 	_ = token.NoPos
+}
+
+// c05LookupOk: a printer that looks a code up in a mnemonic table and falls back to the number when there is no
+// mnemonic must test the ok of that very lookup. (Engler-style: every other comma-ok lookup in the String methods
+// tests its own ok.)
+func c05LookupOk(c *Ctx, r *Report) {
+	r.rule("C05.R2.lookup-ok", 8, "every comma-ok table lookup in a String method has its own ok tested before the mnemonic is used")
+	var names []string
+	for name := range c.decls {
+		if strings.HasSuffix(name, ".String") {
+			names = append(names, name)
+		}
+	}
+	sort.Strings(names)
+	for _, name := range names {
+		fn := c.ssaFunc(name)
+		if fn == nil {
+			continue
+		}
+		n := 0
+		allInstrs(fn, func(in ssa.Instruction) {
+			lk, ok := in.(*ssa.Lookup)
+			if !ok || !lk.CommaOk {
+				return
+			}
+			if _, isMap := lk.X.Type().Underlying().(*types.Map); !isMap {
+				return
+			}
+			var val, okv *ssa.Extract
+			for _, ref := range *lk.Referrers() {
+				if e, isE := ref.(*ssa.Extract); isE {
+					if e.Index == 0 {
+						val = e
+					} else {
+						okv = e
+					}
+				}
+			}
+			if val == nil || len(*val.Referrers()) == 0 {
+				return
+			}
+			n++
+			tested := false
+			if okv != nil {
+				seen := map[ssa.Value]bool{}
+				var flows func(v ssa.Value, d int) bool
+				flows = func(v ssa.Value, d int) bool {
+					if d > 6 || seen[v] {
+						return false
+					}
+					seen[v] = true
+					for _, ref := range *v.Referrers() {
+						switch t := ref.(type) {
+						case *ssa.If:
+							return true
+						case *ssa.UnOp:
+							if flows(t, d+1) {
+								return true
+							}
+						case *ssa.Phi:
+							if flows(t, d+1) {
+								return true
+							}
+						case *ssa.BinOp:
+							if flows(t, d+1) {
+								return true
+							}
+						case *ssa.Store:
+							// a spilled local: follow the loads of the cell
+							if al, ok := t.Addr.(*ssa.Alloc); ok {
+								for _, r2 := range *al.Referrers() {
+									if ld, ok := r2.(*ssa.UnOp); ok && flows(ld, d+1) {
+										return true
+									}
+								}
+							}
+						}
+					}
+					return false
+				}
+				tested = flows(okv, 0)
+			}
+			r.check(tested, "C05.R2.lookup-ok", fmt.Sprintf("%s:lookup#%d", name, n), c.pos(lk.Pos()), "ok tested", "the mnemonic looked up here is printed without the ok of this lookup having been tested: a code without a mnemonic prints as an empty column instead of its number, and the text does not read back")
+		})
+	}
 }
